@@ -339,24 +339,62 @@ def check_aggregate(ck, tu):
                          % (dtable.describe(bad[0])[:60], bad[1]), fn.nloc(bad[0]))
         else:
             ck.ok("PRESTATE-PURITY", "Aggregate<%s>::operator+=" % T, "every combined quantity is computed from the pre-state")
-        # ---- + and += use the same helpers with the same argument
-        def helpers(f):
-            out = {}
-            for c in f.nodes():
-                if "callee" in c and c.get("member_call") and c["callee"]["name"] in ("combine_means", "combine_variance", "min", "max"):
-                    out[c["callee"]["name"]] = ref_of(kids(c)[1]) == f.params[0]["did"]
-            counts = [y for y in f.nodes() if match.binop(y, ("+", "+=")) and
-                      {match.this_field(match.binop(y, ("+", "+="))[1]), (match.field_of(match.binop(y, ("+", "+="))[2]) or (None, None))[1]} == {"count_"}]
-            out["count"] = bool(counts)
-            mm = [c for c in f.nodes() if "callee" in c and c["callee"]["name"] in ("min", "max") and len(kids(c)) == 2]
-            out["minmax"] = sorted((c["callee"]["name"], match.this_field(kids(c)[0]), (match.field_of(kids(c)[1]) or (None, None))[1]) for c in mm)
-            return out
-        hp, he = helpers(fns["operator+"]), helpers(fns["operator+="])
-        want_mm = [("max", "max_", "max_"), ("min", "min_", "min_")]
-        if hp == he and hp.get("combine_means") and hp.get("combine_variance") and hp["count"] and hp["minmax"] == want_mm:
-            ck.ok("PLUS-TWINS", "Aggregate<%s>" % T, "operator+ and operator+= combine count, mean, variance, min, max with the same helpers and roles")
-        else:
-            ck.violation("PLUS-TWINS", fns["operator+"].qname, T, "operator+ and operator+= do not combine the five quantities in the same way (%s vs %s)" % (hp, he), fns["operator+"].loc)
+        # ---- operator+ and operator+= each combine the five quantities: evaluated on a sample state, the helper calls observed
+        from engine import skel
+        for opname in ("operator+", "operator+="):
+            f = fns[opname]
+            other = f.params[0]["did"]
+            for mine, theirs in (((3, 2, 9), (4, 5, 7)), ((3, 6, 8), (4, 1, 20))):       # (count, min, max)
+                A = {"count_": theirs[0], "min_": theirs[1], "max_": theirs[2], "mean_": ("a.mean",), "nvar_": ("a.nvar",)}
+                result = {}
+
+                def event(e, sk, A=A, other=other, f=f, result=result):
+                    if e["k"] == "MemberExpr" and kids(e) and not match.this_field(e):
+                        base = kids(e)[0]
+                        if ref_of(base) == other or sk.lvalue(base) == other:
+                            return A.get(e["member"])
+                    if "callee" in e and e.get("member_call") and e["callee"]["name"] in ("combine_means", "combine_variance") and len(kids(e)) == 2:
+                        arg_is_other = ref_of(kids(e)[1]) == other or sk.lvalue(kids(e)[1]) == other
+                        pre = tuple((fld_, sk.env.get(("field", fld_))) for fld_ in sorted(x_ for x_ in helper_reads[e["callee"]["name"]] if x_))
+                        return (e["callee"]["name"], arg_is_other, pre)
+                    if e["k"] in ("CXXConstructExpr", "CXXTemporaryObjectExpr") and (e.get("callee") or {}).get("record") == AG and len(kids(e)) == 5:
+                        vals = [sk.ev(a_) for a_ in kids(e)]
+                        ctor = tu.by_did.get(e["callee"].get("did"))
+                        if ctor is None:
+                            raise dtable.Undecidable("%s: Aggregate constructor not in the IR" % f.loc)
+                        for i_ in ctor.inits:
+                            fld = i_.get("field") or i_.get("name")
+                            d_ = ref_of(i_.get("e")) if i_.get("e") is not None else None
+                            idx = ctor.param_index(d_) if d_ is not None else None
+                            if fld and idx is not None:
+                                result[fld] = vals[idx]
+                        return ("agg",)
+                    return NotImplemented
+                pre_state = {("field", "count_"): mine[0], ("field", "min_"): mine[1], ("field", "max_"): mine[2],
+                             ("field", "mean_"): ("mean",), ("field", "nvar_"): ("nvar",)}
+                sk = skel.Skel(f, dict(pre_state), None, event)
+                try:
+                    sk.run(kids(f.body))
+                except skel.Return:
+                    pass
+                if opname == "operator+=":
+                    result = {k_[1]: v_ for k_, v_ in sk.env.items() if isinstance(k_, tuple) and k_[0] == "field"}
+                pre0 = {"count_": mine[0], "mean_": ("mean",), "nvar_": ("nvar",), "min_": mine[1], "max_": mine[2]}
+
+                def pre(h_):
+                    return tuple((fld_, pre0.get(fld_)) for fld_ in sorted(x_ for x_ in helper_reads[h_] if x_))
+                want = {"count_": mine[0] + theirs[0], "min_": min(mine[1], theirs[1]), "max_": max(mine[2], theirs[2]),
+                        "mean_": ("combine_means", True, pre("combine_means")), "nvar_": ("combine_variance", True, pre("combine_variance"))}
+                wrong = [k_ for k_ in want if result.get(k_) != want[k_]]
+                if wrong:
+                    k_ = wrong[0]
+                    ck.violation("PLUS-COMBINES", f.qname, "%s:%s" % (T, k_),
+                                 "%s of (count %d, min %d, max %d) and (count %d, min %d, max %d) leaves %s = %s; it must be %s (count added, mean and variance "
+                                 "through combine_means / combine_variance of the argument on the pre-state, min and max of both)"
+                                 % (opname, mine[0], mine[1], mine[2], theirs[0], theirs[1], theirs[2], k_, result.get(k_), want[k_]), f.loc)
+                    break
+            else:
+                ck.ok("PLUS-COMBINES", "Aggregate<%s>::%s" % (T, opname), "count, mean, variance, min, max combined from the pre-state on two sample states")
         # ---- formulas of the helpers, exactly, on sample points
         pts = [(3, Fraction(7, 2), Fraction(5), 5, Fraction(-2), Fraction(11, 3)), (1, Fraction(2), Fraction(0), 4, Fraction(9), Fraction(7)),
                (10, Fraction(1, 3), Fraction(2), 1, Fraction(100), Fraction(0)), (2, Fraction(5), Fraction(1), 2, Fraction(5), Fraction(3))]
@@ -453,6 +491,6 @@ def run(ck):
     ck.floor("NO-OVERFLOW-BEFORE-NARROW", 18)
     ck.floor("BOOL-TOTAL", 6)
     ck.floor("PRESTATE-PURITY", 2)
-    ck.floor("PLUS-TWINS", 2)
+    ck.floor("PLUS-COMBINES", 4)
     ck.floor("COMBINE-FORMULA", 4)
     ck.floor("DIV-GUARD", 4)
